@@ -8,7 +8,7 @@ MODEL_FN = 'Model/Pipe.v:pipe_step (whole-datagram steps), message count of the 
 RULE = ('workloads: a sequential prologue announcing templates (no redefinitions) and sampling rates for 4 exporter scopes '
         '(v9 and IPFIX, several domains), then 20..60 data-only v9/IPFIX messages, NetFlow v5 and sFlow datagrams processed by '
         '2, 3, 8, 16 or 32 goroutines calling DecodeFlow on one shared auto pipe assembled as cmd/goflow2 assembles it (Prometheus template system, Prometheus and panic wrappers) / producer / format / recording transport '
-        'with random yields, harness built with -race, once with an in-memory recording transport (bin format), once with the JSON format and the real file transport, and through the raw producer (-produce raw) with the JSON format incl. dense NetFlow v5 workloads (oracle: the sequential run); compared with a sequential run of the same datagrams on a fresh pipe: '
+        'with random yields, harness built with -race, with no mapping file and under cmd/goflow2/mapping.yaml and a file mapping IPFIX / v9 elements and sFlow layers into custom fields (the compiled configuration is shared by the workers), once with an in-memory recording transport (bin format), once with the JSON format and the real file transport, and through the raw producer (-produce raw) with the JSON format incl. dense NetFlow v5 workloads (oracle: the sequential run); compared with a sequential run of the same datagrams on a fresh pipe: '
         'same number of Send calls as the model\'s sequential run, same multiset of payloads, and the messages of each datagram '
         '(recognised by its unique receive time) in the same order; the race detector must stay silent. '
         'non-trivial = a workload that produced at least 50 messages; distinct by input')
@@ -52,6 +52,34 @@ def run(chk):
             chk.record('scopeA', dict(concrete=True, input=a[:40000], impl=o, expected=e,
                        what='concurrent processing delivered a different multiset / per-datagram order / count than sequential processing'), {})
     chk.samples.append(dict(stream='workload', workers=ins[0].split(' ')[1], input=ins[0][:400], impl=outs[0], expected=exp[0]))
+    # the same workloads under a mapping file (seventh round, seed C15-7): the compiled producer configuration -- the
+    # NetFlow / IPFIX field mappers, the layer mappings, the formatter's field tables -- is one object shared by every
+    # worker; with no mapping file most of it is nil and never touched. cmd/goflow2/mapping.yaml and a file with
+    # ipfix / netflowv9 / sflow mappings into custom protobuf fields; oracle = the sequential run in the same process
+    # (count, per-datagram order and multiset)
+    import props.c12 as c12
+    cins = []
+    for i, a in enumerate(ins[:dict(quick=16, thorough=400)[chk.tier]]):
+        f = a.split(' ')
+        f[2] = 'mapping' if i % 2 else 'yaml:' + c12.CUSTOM_CFG.encode().hex()
+        cins.append(' '.join(f))
+    pcf = subprocess.run([chk.harness, 'run'], input=('\n'.join(cins) + '\n').encode(), stdout=subprocess.PIPE,
+                         stderr=subprocess.PIPE, timeout=3000, env=env)
+    couts = pcf.stdout.decode().split('\n')[:len(cins)]
+    errc = pcf.stderr.decode(errors='replace')
+    chk.evals += len(cins)
+    chk.count('workloads under a mapping file', len(cins))
+    if errc.count('WARNING: DATA RACE'):
+        chk.record('scopeA-race', dict(concrete=True, input=cins[0][:20000], impl=errc[:6000],
+                   what='the Go race detector reported a data race while workers decoded concurrently under a mapping file'), {})
+    for a, e, o in zip(cins, exp, couts):
+        fo = o.split(' ')
+        # a mapping file may reject flows the default configuration accepts (a 16-byte element mapped to a varint field
+        # fails the datagram): the number of messages is the sequential run's, not the model's under no mapping
+        if not (len(fo) == 4 and fo[0] == 'msgs' and fo[1] != '#0' and fo[2] == 'diff' and fo[3] == '#0'):
+            chk.record('scopeA', dict(concrete=True, input=a[:40000], impl=o, expected=e,
+                       what='under a mapping file concurrent processing delivered a different multiset / per-datagram order / count than sequential processing'), {})
+    chk.samples.append(dict(stream='workload-mapping', input=cins[0][:300], impl=couts[0], expected=exp[0]))
     # the same workloads through the JSON format and the real file transport (one shared O_APPEND file)
     fins = ['parfile' + a[3:] for a in ins]
     # one process per workload: the registered file transport is initialised once per process, as in the collector
